@@ -15,6 +15,12 @@ CHECKS = {
          "Exploration under the default configuration: formatted output must parse, have the same token sequence modulo five documented cosmetic rewrites, and the same comment sequence, for every repo .sw file x 8 transformations plus random variants.",
          "Token comparison normalises trailing commas, use-tree braces/sorting, parentheses around a single separator-delimited element and string-literal escapes; ~80 listed inputs lose comments or produce unparsable text on the unchanged tree (known findings).", "4/C19", "vp-text"),
 
+ "C02": ("proptest tape -> typed Sway script generator; differential oracle O0 vs O1 on the FuelVM (return data, logs, revert status)",
+         "Exploration: 800 (quick) / 40k (thorough) generated scripts, each emitted in two variants (operand-masked arithmetic that cannot abort, and plain), compiled in process with the real pipeline at O0 and O1 and run on the FuelVM with 8 boundary-biased argument tuples; any difference in return data, logged values or revert status is a violation. Two recorded findings are attributed by causal re-tests (release continues past a dead arithmetic abort; difference vanishes when the release-only memcpyprop_reverse pass is skipped).",
+         "Scripts only (no contracts/predicates); in-process pipeline with a pre-compiled std instead of the forc CLI; programs the O1 pipeline rejects with an internal compiler error (C17 findings, ~10%) are skipped; a release build that drops a live overflow check would be attributed to the dead-abort finding.", "4/C02", "vp"),
+ "C17": ("proptest tape -> typed Sway script generator; no-panic / no-ICE oracle over the full pipeline at O0 and O1",
+         "Exploration: 700 (quick) / 40k (thorough) generated well-typed scripts x 2 emission variants compiled through compile_to_ast -> ast_to_asm -> asm_to_bytecode at O0 and O1; a panic or CompileError::Internal is a violation, identified by stage and first message line. Crash-freedom over all packages cannot be shown by testing; this samples the well-typed fragment the generator covers.",
+         "Domain restricted to well-typed generated scripts (ill-typed / mutated corpus programs are not generated yet); a compilation exceeding 120 s ends the check as inconclusive (exit 2).", "4/C17", "vp"),
  "C20": ("proptest graph generator; round-trip oracle Lock::from_graph -> TOML -> to_graph",
          "Exploration: 600k (quick) / 12M (thorough) generated package graphs (member/path/git/ipfs/registry sources, renamed and contract dependencies with salts, same-named packages) are written to Forc.lock text and read back; node and edge multisets, structural source equality and lock-text stability are compared.",
          "Tier A strings only contain characters the manifest validation admits; adversarial tier B (refs/dependency names with `( ) # ?`) is run for crash-freedom and counted, not judged. Git Rev references equal the pinned hash.", "4/C20", "vp"),
@@ -28,7 +34,9 @@ CHECKS = {
          "Exploration: 150k (quick) / 6M (thorough) edit histories (1-29 full and incremental changes, multi-byte and astral characters, mixed line ends, invalid ranges) applied through Documents::update_text_document; server text must equal the reference client's after every step, invalid ranges must be rejected unchanged, nothing may panic.",
          "Lone CR line ends are not generated; sloppy columns (past end of line, inside a surrogate pair) are crash-freedom only.", "4/C23", "vp-lsp"),
 }
-NA = {}
+NA = {
+ "C01": "a reference interpreter for the generated fragment exists in harness/vp (swaygen::Interp) but its disagreements with the VM have not been triaged to the standard needed to rule out false alarms, so the check is not claimed; C02 and C17 run the same generator",
+}
 checks = []
 for pid in ALL:
     if pid in CHECKS:
@@ -52,7 +60,7 @@ m = {
    "guard": "--cfg fuellabs_sway_verif",
    "enable": "harness/.cargo/config.toml passes rustflags [\"--cfg\", \"fuellabs_sway_verif\"] to every harness build; /repo's own builds never see it",
    "baseline_off_cmd": base["cmd"],
-   "source_commits": [],
+   "source_commits": ["7fe56b1"],
    "add_only": True,
  },
  "engines": [
